@@ -60,8 +60,8 @@ pub fn property() -> Property {
     scenarios: &[Scenario {
       id: 0,
       name: "gating of plaintext, wrongly protected and correctly protected traffic",
-      quick: 1_500,
-      thorough: 150_000,
+      quick: 10_000,
+      thorough: 1_000_000,
       max_len: 300,
       max_threads: 0,
     }],
